@@ -2,6 +2,8 @@ package larking
 
 import (
 	"context"
+	"errors"
+	"io"
 	"net"
 
 	"github.com/gobwas/ws"
@@ -89,6 +91,10 @@ func (s *streamWS) RecvMsg(m interface{}) error {
 
 		b, _, err := wsutil.ReadClientData(s.conn)
 		if err != nil {
+			var cerr wsutil.ClosedError
+			if errors.As(err, &cerr) && cerr.Code == ws.StatusNormalClosure {
+				return io.EOF // the client ended the stream cleanly
+			}
 			return err
 		}
 
